@@ -6,23 +6,23 @@ Proof. induction fs as [|f r IH]; [reflexivity|]. cbn [forallb]. rewrite <- IH. 
 
 (** Induction principle with the list case (the automatically generated one lacks it). *)
 Lemma gotype_ind' (P : gotype -> Prop) :
-  P TScalar -> P TPtr -> P TSlice -> P TMap -> P TChan -> P TIface -> P TString -> P TFunc ->
+  P TScalar -> P TPtr -> P TSlice -> P TMap -> P TChan -> P TIface -> P TString -> P TFunc -> P TUnsafePtr ->
   (forall fs, Forall P fs -> P (TStruct fs)) -> (forall n e, P e -> P (TArray n e)) -> forall t, P t.
 Proof.
-  intros Hs Hp Hsl Hm Hc Hi Hst Hf Hstruct Harr.
-  fix IH 1. intros [| | | | | | | |fs|n e]; try assumption.
+  intros Hs Hp Hsl Hm Hc Hi Hst Hf Hu Hstruct Harr.
+  fix IH 1. intros [| | | | | | | | |fs|n e]; try assumption.
   - apply Hstruct. induction fs as [|f r IHr]; constructor; [apply IH | exact IHr].
   - apply Harr. apply IH.
 Qed.
 
-(** isTrivial is exactly "contains none of pointer, slice, map, chan, interface, string". *)
+(** isTrivial is exactly "contains none of pointer, slice, map, chan, interface, string, func, unsafe pointer". *)
 Theorem is_trivial_spec : forall t, is_trivial t = true <-> ~ pointerish t.
 Proof.
-  induction t as [| | | | | | | |fs IH|n e IH] using gotype_ind'; cbn [is_trivial].
+  induction t as [| | | | | | | | |fs IH|n e IH] using gotype_ind'; cbn [is_trivial].
   all: try (split; [intros _ H; inversion H | reflexivity]).
   all: try (split; [discriminate | intros H; exfalso; apply H; constructor]).
   - rewrite all_fields, forallb_forall. split.
-    + intros H Hp. inversion Hp as [| | | | | |fs' f Hin Hf|]; subst.
+    + intros H Hp. inversion Hp as [| | | | | | | |fs' f Hin Hf|]; subst.
       rewrite Forall_forall in IH. apply (IH f Hin); [apply H; exact Hin | exact Hf].
     + intros H f Hin. rewrite Forall_forall in IH. apply (IH f Hin). intros Hf. apply H. econstructor; eassumption.
   - rewrite IH. split; intros H Hp; [inversion Hp; subst; auto | apply H; constructor; exact Hp].
